@@ -125,6 +125,54 @@ def run_assignments(seed, grouped=False, history_first=True, only=None):
     return results
 
 
+LIST_METHODS = ["append", "insert", "extend", "iadd", "setitem"]
+
+
+def run_list_mutations(seed, only=None):
+    """every list attribute × every way of putting an element of the wrong class into it on a live model"""
+    rng = random.Random(seed)
+    results = []
+    objs = richsys.build(values=[round(rng.uniform(0.5, 9), 2) for _ in range(rng.randint(3, 9))])
+    names = [n for n in objs if n != "sys" and (only is None or n in only)]
+    for n in names:
+        o = objs[n]
+        for pn, kind, default in params_of(o):
+            if not kind.startswith("list:") or not hasattr(o, pn):
+                continue
+            for label, bad in invalid_values(type(o), pn, kind, default, objs):
+                if label != "list-with-wrong-class":
+                    continue
+                wrong = bad[0]
+                for method in LIST_METHODS:
+                    lst = getattr(o, pn)
+                    if method == "setitem" and len(lst) == 0:
+                        continue
+                    before = snapshot.deep(objs)
+                    try:
+                        with watchdog(30):
+                            if method == "append":
+                                lst.append(wrong)
+                            elif method == "insert":
+                                lst.insert(0, wrong)
+                            elif method == "extend":
+                                lst.extend([wrong])
+                            elif method == "iadd":
+                                setattr(o, pn, getattr(o, pn) + [wrong])
+                            else:
+                                lst[0] = wrong
+                        raised = None
+                    except Exception as e:  # noqa
+                        raised = err_enum(e)
+                    changed = snapshot.diff(before, snapshot.deep(objs))
+                    results.append({"obj": n, "cls": type(o).__name__, "param": pn, "kind": kind, "invalid": label,
+                                    "raised": raised, "changed": [list(map(str, c)) for c in changed], "grouped": False,
+                                    "list_method": method, **offered_info(bad, default)})
+                    if changed or raised is None:
+                        objs = richsys.build(values=[round(rng.uniform(0.5, 9), 2) for _ in range(rng.randint(3, 9))])
+                        o = objs[n]
+    return results
+
+
 def run_constructions(only=None):
     """every class × parameter × invalid kind at construction"""
     results = []
@@ -149,7 +197,8 @@ def violations_of(results):
     vs = []
     for r in results:
         where = "construction" if r.get("construction") else (
-            "grouped-update-after-noop" if r.get("grouped") == "noop-first" else "grouped-update" if r.get("grouped") else "assignment")
+            "grouped-update-after-noop" if r.get("grouped") == "noop-first" else "grouped-update" if r.get("grouped")
+            else f"list-{r['list_method']}" if r.get("list_method") else "assignment")
         if r["kind"] == "union" and (r["raised"] is None or r["changed"]) and r["raised"] != "not-allowed":
             # call site: check_input_value_type_positivity_and_unit skips parameters whose annotation is a Union
             vs.append({"signature": f"C14:union-annotated-parameter-unchecked:{r['cls']}.{r['param']}",
@@ -183,6 +232,8 @@ def shard(args):
     seed, names, mode = args
     if mode == "construct":
         return run_constructions(only=names)
+    if mode == "listops":
+        return run_list_mutations(seed, only=names)
     return run_assignments(seed, grouped=("noop-first" if mode == "noop-first" else mode == "grouped"), only=names)
 
 
